@@ -103,6 +103,8 @@ Digits(n) == IF n < 10 THEN <<48 + n>> ELSE Digits(n \div 10) \o <<48 + (n % 10)
 RECURSIVE Flatten(_)
 Flatten(ss) == IF Len(ss) = 0 THEN <<>> ELSE IF Len(ss) = 1 THEN ss[1]
                ELSE LET h == Len(ss) \div 2 IN Flatten(SubSeq(ss, 1, h)) \o Flatten(SubSeq(ss, h + 1, Len(ss)))
+RECURSIVE Sum(_)
+Sum(d) == IF d = <<>> THEN 0 ELSE Head(d) + Sum(Tail(d))
 RECURSIVE Product(_)
 Product(d) == IF d = <<>> THEN 1 ELSE Head(d) * Product(Tail(d))
 MaxOf(S) == IF S = {} THEN 0 ELSE CHOOSE m \in S : \A x \in S : x <= m
